@@ -184,6 +184,13 @@ pub fn c03_judge(c: &C03Case, obs: &mut Obs) -> Result<(), String> {
         // the implementation adds two rounded f32 quantities: allow the rounding of the larger
         // addend expressed in ulps of the (possibly much smaller, e.g. cancelling) sum
         let slack = 2u64.saturating_add((ulp32((tm.cycle as f64 * tm.repeat.cycles().unwrap() as f64) as f32) / ulp32(want).max(f32::MIN_POSITIVE)).ceil() as u64);
+        // exact domain: count, product and sum all exactly representable -> a straightforward
+        // evaluation has nothing to round, the reported duration must be exactly the configured one
+        let n1 = tm.repeat.cycles().unwrap() as f64;
+        let all_exact = exact32(n1) && exact32(tm.cycle as f64 * n1) && sum_exact(tm.delay as f64, tm.cycle as f64 * n1) && exact32(total);
+        if all_exact && dur.to_bits() != want.to_bits() && !(dur == 0.0 && want == 0.0) {
+            return Err(format!("duration() = {dur:?} but delay + cycle x (repeats+1) = {total} exactly (every quantity involved is representable) ({:?})", tm));
+        }
         if !(dur.is_finite() && ulps_between(dur, want) <= slack) {
             return Err(format!("duration() = {dur:?} but delay + cycle x (repeats+1) = {total} ({:?})", tm));
         }
